@@ -183,6 +183,23 @@ def judge(ctx, name, args, run, path, expect_error=False, pos=None):
                 accepted=['an error value']))
 
 
+_RAISED = object()
+
+
+def _quiet(run):
+    try:
+        return run()
+    except Exception:
+        return _RAISED          # raising is judged by the sweep above
+
+
+def _is_value_error(r):
+    if r is _RAISED:
+        return False
+    c = xl.canon(xl.unwrap(r))
+    return c == xl.c_err('#VALUE!')
+
+
 def _fk(bad):
     if not bad:
         return 'structure'
@@ -271,6 +288,41 @@ def _run_name(name, ctx, tb, rng, cell_sample):
                 is_err = not isinstance(h, list) and xl.kind(h) == 'err'
                 judge(ctx, name, args, lambda a=args: tb.call(name, a), 'direct',
                       expect_error=is_err and not exempt(name, pos, args), pos=pos)
+        # wrong types give #VALUE!: a text only python reads as a number
+        # ("1_0", "1_000.5") is as wrong as "abc" - twin calls, no type model
+        for pos in range(n):
+            twin = list(base)
+            twin[pos] = 'abc'
+            r_abc = _quiet(lambda a=twin: tb.call(name, a))
+            if not _is_value_error(r_abc):
+                continue
+            for txt in ('1_0', '1_000.5'):
+                args = list(base)
+                args[pos] = txt
+                ctx.open_case({'name': name, 'pos': pos, 'text': txt})
+                ctx.count('monitor.python-only-numeral')
+                r = _quiet(lambda a=args: tb.call(name, a))
+                if r is not _RAISED and not has_error(r):
+                    ctx.violation('pytext-accepted:%s:pos%d' % (_base(name), pos), {
+                        'case': {'kind': 'call', 'name': name, 'path': 'direct',
+                                 'args': [enc(a) for a in args]},
+                        'call': '%s(%s)' % (name, ', '.join(show_arg(a) for a in args)),
+                        'observed': xl.show(xl.canon(xl.unwrap(r)))[:120],
+                        'accepted': ['#VALUE! (as for "abc" in that position)'],
+                        'function': _base(name), 'text': txt})
+        # an error next to the text that spells it (an error value is a str
+        # subclass: comparing the two must not make the error disappear)
+        for pos in range(1, n):
+            for e_ in ('#N/A', '#DIV/0!'):
+                args = list(base)
+                args[0], args[pos] = e_, E(e_)
+                if exempt(name, pos, args) or _base(name) in ('IF', 'IFS', 'CHOOSE') or (
+                        _base(name) == 'SWITCH' and pos != 1):
+                    continue
+                ctx.open_case({'name': name, 'pos': pos, 'spelled': e_})
+                ctx.count('monitor.error-beside-its-spelling')
+                judge(ctx, name, args, lambda a=args: tb.call(name, a), 'direct',
+                      expect_error=True, pos=pos)
         # a second benign base: numbers negated (other branches of the
         # functions, e.g. two's complement in DEC2BIN); an error argument must
         # surface there as well
